@@ -36,6 +36,7 @@ def run(prog, rep):
     rep.part(drop, prog, rep)
     rep.part(minimum, prog, rep)
     rep.part(ppi, prog, rep)
+    rep.part(empty_exits, prog, rep)
     from .purity import stateless, methods
     stateless(prog, rep, "C10.stateless", methods(prog, {f"{IV}.IntervalSlicer": ["slice_", "_drop_too_small_intervals"], f"{IV}.WidthOfIntervalSlicer": ["_slice"],
                                                           f"{IV}.NumberOfIntervalsSlicer": ["_slice"], f"{IV}.PointsPerIntervalSlicer": ["_slice"]}), what="slicing")
@@ -48,7 +49,7 @@ def run(prog, rep):
     rep.expect_min("C10.refs", 12)
     rep.expect_min("C10.drop", 4)
     rep.expect_min("C10.min", 3)
-    rep.expect_min("C10.ppi", 6)
+    rep.expect_min("C10.ppi", 10)
 
 
 # ------------------------------------------------------------------ helpers
@@ -75,24 +76,57 @@ def appended(fn, b, listname):
     return out
 
 
-def ret_names(fn):
+def _triple_of(fn, b, ret):
+    if isinstance(ret.value, ast.Tuple):
+        if len(ret.value.elts) != 3:
+            raise AnalysisError(f"{fn.qualname}: expected 'return slices, references, boundaries'")
+        return [b.term(e, ret) for e in ret.value.elts]
+    t = b.term(ret.value, ret)
+    if t[0] == "tuple" and len(t[1]) == 3:
+        return list(t[1])
+    return [IT(t, k) for k in range(3)]
+
+
+def _emptied(l):
+    """the term X a literal says is empty (len(X) == 0, not X, not len(X), len(X) < 1), else None"""
+    def of_len(t):
+        return t[2][0] if t[0] == "call" and t[1] == G("len") and len(t[2]) == 1 else None
+    if l[0] == "not":
+        return of_len(l[1]) or l[1]
+    if l[0] == "cmp" and l[1] == "==" and l[3] == ("const", 0):
+        return of_len(l[2])
+    o = ordered(l)
+    if o is not None and ((o[1] == ("const", 1) and o[2]) or (o[1] == ("const", 0) and not o[2])):
+        return of_len(o[0])
+    return None
+
+
+def all_returns(fn, b):
+    """[(return statement, [masks, references, boundaries], is_empty_exit)]: an empty exit is a return reached only where
+    the list of masks (its own or that of another return) is empty: nothing survived, slice_ raises or returns nothing."""
     rets = [s for s in cfg_of(fn).all_stmts() if isinstance(s, ast.Return) and s.value is not None]
+    pcs = path_conditions(b.prog, fn, b) if len(rets) > 1 else None
+    trs = [_triple_of(fn, b, r) for r in rets]
+    lists = {tr[0] for tr in trs}
+    out = []
+    for r, tr in zip(rets, trs):
+        out.append((r, tr, pcs is not None and any(_emptied(l) in lists for l in pcs.of(r))))
+    return out
+
+
+def ret_names(fn, b=None):
+    rets = [s for s in cfg_of(fn).all_stmts() if isinstance(s, ast.Return) and s.value is not None]
+    if len(rets) != 1 and b is not None:
+        rets = [r for r, _t, empty in all_returns(fn, b) if not empty]
     if len(rets) != 1:
-        raise AnalysisError(f"{fn.qualname}: expected one 'return slices, references, boundaries'")
+        raise AnalysisError(f"{fn.qualname}: expected one 'return slices, references, boundaries' (besides exits with no interval left)")
     return rets[0]
 
 
 def ret_triple(fn, b):
     """(return statement, [masks, references, boundaries] terms): a tuple display, or the three elements of a returned call result."""
-    ret = ret_names(fn)
-    if isinstance(ret.value, ast.Tuple):
-        if len(ret.value.elts) != 3:
-            raise AnalysisError(f"{fn.qualname}: expected one 'return slices, references, boundaries'")
-        return ret, [b.term(e, ret) for e in ret.value.elts]
-    t = b.term(ret.value, ret)
-    if t[0] == "tuple" and len(t[1]) == 3:
-        return ret, list(t[1])
-    return ret, [IT(t, k) for k in range(3)]
+    ret = ret_names(fn, b)
+    return ret, _triple_of(fn, b, ret)
 
 
 def mask_sources(prog, fn, b):
@@ -626,6 +660,68 @@ def minimum(prog, rep):
               "slice_ must return the masks and boundaries computed by _slice(data)")
 
 
+def _nonzero(lits, x):
+    """Does one of the path-condition literals say that x is not zero / not empty?"""
+    zero, one = ("const", 0), ("const", 1)
+    for l in lits:
+        if l == x or l == ("not", ("not", x)) or l == ("not", CMP("==", x, zero)):
+            return True
+        o = ordered(l)
+        if o is not None and ((o[0] == zero and o[1] == x and o[2]) or (o[0] == one and o[1] == x and not o[2])):
+            return True
+        if l[0] == "not":
+            o = ordered(l[1])
+            if o is not None and ((o[0] == x and o[1] == zero and not o[2]) or (o[0] == x and o[1] == one and o[2])):
+                return True
+    return False
+
+
+def _le(l, lo, hi):
+    """literal says lo <= hi"""
+    o = ordered(l)
+    if o is not None and o[0] == lo and o[1] == hi:
+        return True
+    if l[0] == "not":
+        o = ordered(l[1])
+        return o is not None and o[0] == hi and o[1] == lo and o[2]
+    return False
+
+
+def _const_int(node):
+    if isinstance(node, ast.Constant) and isinstance(node.value, int) and not isinstance(node.value, bool):
+        return node.value
+    if isinstance(node, ast.UnaryOp) and isinstance(node.op, ast.USub) and isinstance(node.operand, ast.Constant) and isinstance(node.operand.value, int):
+        return -node.operand.value
+    return None
+
+
+def _own_nodes(st):
+    """expression nodes evaluated by the statement itself (not by the statements nested in it)"""
+    todo = []
+    for name, val in ast.iter_fields(st):
+        if name in ("body", "orelse", "finalbody", "handlers"):
+            continue
+        todo.extend(val if isinstance(val, list) else [val])
+    for v in todo:
+        if isinstance(v, ast.AST):
+            yield from ast.walk(v)
+
+
+def empty_exits(prog, rep):
+    """A _slice may leave early where nothing survived: it must hand back that (empty) list of masks, so that slice_ counts zero intervals."""
+    for ci in slicers(prog):
+        fn = prog.lookup_method(ci, "_slice")
+        b = builder(prog, fn, ci, inline=False)
+        rs = all_returns(fn, b)
+        main = [tr for _r, tr, e in rs if not e]
+        for r, tr, e in rs:
+            if not e:
+                continue
+            ok = len(main) == 1 and (tr[0] == main[0][0] or tr[0] == ("list", ())) and (tr[2] == ("list", ()) or tr[2] == main[0][2])
+            rep.check(ok, "C10.min", f"{fn.qualname}:empty-exit", fn.where(r), "an exit with no interval left returns the empty list of masks (slice_ then counts 0 intervals)",
+                      f"the exit taken when no interval is left must return that empty list of masks and no boundaries; found {show(tr[0])[:80]} / {show(tr[2])[:60]}")
+
+
 # ---------------------------------------------------------------------- ppi
 def ppi(prog, rep):
     q = f"{IV}.PointsPerIntervalSlicer._slice"
@@ -675,12 +771,37 @@ def ppi(prog, rep):
                     found = True
             rep.check(found, "C10.ppi", inst + ":remainder", fn.where(c[0]), f"remainder chunk {show(piece)[:50]} placed {'first' if meth == 'insert' else 'last'}",
                       f"the remainder chunk {show(piece)[:60]} must be {'inserted first' if meth == 'insert' else 'appended last'} ({'last_full' if meth == 'insert' else 'not last_full'})")
+    # totality: a data vector shorter than n_points has no full chunk (np.split(x, 0) divides by zero) and one in which
+    # every interval is dropped has no first interval - both must end in slice_'s RuntimeError, not in a crash
+    for key, c in sorted(cases.items(), key=lambda kv: kv[1][0].lineno):
+        cnt = c[1][2][1] if len(c[1][2]) > 1 else None
+        if cnt is None or cnt[0] == "const":
+            continue
+        lits = pcs.of(c[0])
+        ok = _nonzero(lits, cnt) or (cnt == full and any(_le(l, npts, n) for l in lits))
+        rep.check(ok, "C10.ppi", f"{q}:split-count:{'/'.join(map(str, key)) if key else c[0].lineno}", fn.where(c[0]),
+                  f"np.split into {show(cnt)[:40]} sections only where that count is not zero",
+                  f"np.split(..., {show(cnt)[:60]}) is reached with a zero section count when the data has fewer than n_points observations "
+                  f"(ZeroDivisionError instead of one short interval / the RuntimeError of slice_); path condition: {[show(l)[:60] for l in lits]}")
+    for st in cfg.all_stmts():
+        for node in _own_nodes(st):
+            if isinstance(node, ast.Subscript) and isinstance(node.ctx, ast.Load) and _const_int(node.slice) is not None:
+                base = b.term(node.value, st)
+                if not (base[0] == "sub" and base[2][0] == "const" and base[1][0] == "call" and base[1][1] == ("attr", SELF, "_drop_too_small_intervals")):
+                    continue
+                lits = pcs.of(st)
+                ln = ("call", G("len"), (base,), ())
+                sib = [("call", G("len"), (("sub", base[1], ("const", k)),), ()) for k in range(3)]
+                ok = any(_nonzero(lits, x) for x in [ln, base] + sib)
+                rep.check(ok, "C10.ppi", f"{q}:first-interval:{ast.unparse(node)[:40]}", fn.where(st),
+                          "an element of the surviving intervals is read only where some interval survived",
+                          f"{ast.unparse(node)[:60]} is read although every interval may have been dropped (IndexError instead of the RuntimeError of slice_); "
+                          f"path condition: {[show(l)[:60] for l in lits]}")
     # masks: membership of the POSITION in the chunk - a mask that sees the chunk only through the values data[chunk]
     # (np.isin(data, data[idc])) cannot tell tied observations apart and puts a tie across a chunk boundary in two intervals
     rets = [s for s in cfg.all_stmts() if isinstance(s, ast.Return)]
-    mt = None
-    if len(rets) == 1:
-        mt = ret_triple(fn, b)[1][0]
+    main, (mt, _rt, _bt) = ret_triple(fn, b)
+    rets = [main]
     # the comprehension over the chunks (possibly behind _drop_too_small_intervals(...)[0])
     comps = [s_ for s_ in walk(mt)] if mt is not None else []
     comps = [s_ for s_ in comps if s_[0] == "comp" and s_[1] == "list" and isinstance(s_[5], tuple) and (not s_[5] or s_[5][0] != "nested")
